@@ -104,7 +104,7 @@ def one(args):
         t["a"], t["b"] = c18.out_of(a), c18.out_of(b)
         t["linesA"], t["linesB"], t["files"], t["mode"], t["exc"] = main, lines, files, mode, a["exc"]
         if k % 25 == 0:           # the same through the command line tool, as the property's observation point says
-            import assembler
+            assembler = hostrun.import_cli("assembler")
             open(os.path.join(base, "main.asm"), "w").write("".join(main))
             code, out = hostrun.run_main(assembler, ["main.asm", "--to_bin", "m.bin"])
             t["cli"] = {"exit": code, "tb": "TRACEBACK" in out, "bin": list(open("m.bin", "rb").read()) if os.path.exists("m.bin") else None}
